@@ -86,6 +86,9 @@ func classify(sc *Scenario, r Result) (bool, []string) {
 	if sc.PreCancel {
 		cl = append(cl, "created-on-a-cancelled-context")
 	}
+	if sc.Twin {
+		cl = append(cl, "independent-twin-instance-alongside")
+	}
 	switch sc.Prop {
 	case "C05":
 		if sc.Stage == "take" {
